@@ -15,8 +15,8 @@ ASSUMPTIONS = ['reference model: definitions in document order of their first li
 
 DEF_LABELS_SMALL = ['foo', 'FOO', 'Foo', 'fooo']
 # 'f\\_o': a label with a backslash escape (labels are matched on their source text, the backslash is part of the key)
-DEF_LABELS = ['foo', 'Foo', 'FOO', 'f oo', 'f  oo', 'f\noo', 'ẞ', 'SS', 'ss', 'Ǆ', 'ǆ', 'fooo', 'f\\_o']
-USE_LABELS = ['foo', 'FOO', 'f oo', 'F  OO', 'ss', 'ẞ', 'ǆ', 'fooo', 'bar', 'F\\_O']
+DEF_LABELS = ['foo', 'Foo', 'FOO', 'f oo', 'f  oo', 'f\noo', 'ẞ', 'SS', 'ss', 'Ǆ', 'ǆ', 'fooo', 'f\\_o', 'stra\xdfe', '\u03bf\u03c2', '\ufb01x']
+USE_LABELS = ['foo', 'FOO', 'f oo', 'F  OO', 'ss', 'ẞ', 'ǆ', 'fooo', 'bar', 'F\\_O', 'STRASSE', '\u039f\u03a3', 'FIX']
 TITLE_STYLES = ['"', "'", '(', None, 'nextline']
 BOUNDS = {'quick': dict(blocks=3, defs=2, lattice_defs=2), 'thorough': dict(blocks=4, defs=3, lattice_defs=3)}
 
@@ -231,7 +231,7 @@ def run_job(job):
                 for variant in range(len(TITLE_STYLES) * 2 if k <= 2 else 2):
                     style = TITLE_STYLES[variant % len(TITLE_STYLES)]
                     angle = variant >= len(TITLE_STYLES) or (k > 2 and variant == 1)
-                    for layout in range(3):
+                    for layout in range(4):
                         ds = [mkdef(i + 1, DEF_LABELS[j], style=style, angle=angle) for i, j in enumerate(idx)]
                         use = trees.N('para', lines=[use_text(USE_LABELS)], use=True)
                         if layout == 0:      # definitions first, glued run of lines, then the uses
@@ -240,8 +240,29 @@ def run_job(job):
                             blocks = ds + [use]
                         elif layout == 1:    # uses first, first definition inside a quote, the rest after
                             blocks = [use, trees.N('quote', children=[ds[0]])] + ds[1:]
-                        else:                # definitions inside a list item and at the end
+                        elif layout == 2:    # definitions inside a list item and at the end
                             blocks = [trees.N('list', ordered=False, start=None, items=[[ds[0]]]), use] + ds[1:]
+                        else:
+                            # the first definition inside a quote, its title on a LAZY continuation line (no '>'); needs a title
+                            if not style or style == 'nextline':
+                                continue
+                            d = ds[0]
+                            t = {'"': '"%s"', "'": "'%s'", '(': '(%s)'}[style] % d.title
+                            dest = '<%s>' % d.dest if angle else d.dest
+                            md = use_text(USE_LABELS) + '\n\n> [%s]: %s\n%s\n' % (d.label.replace('\n', '\n> '), dest, t)
+                            rest_blocks = ds[1:]
+                            if rest_blocks:
+                                md += '\n' + trees.to_markdown(rest_blocks, trees.DEFAULTS)[0]
+                            defs = [(x.label, rendered_dest(x), x.title) for x in ds]
+                            r.states += 1
+                            r.transitions += 1
+                            r.validated += 1
+                            f = evaluate(md, USE_LABELS, 1, defs)
+                            if f:
+                                r.fail(dict(markdown=md, use_labels=USE_LABELS, use_blocks=1, defs=defs), f['sig'], f.get('detail', ''),
+                                       expected=f.get('expected'), observed=f.get('observed'))
+                            r.outcome('lattice-lazy-title')
+                            continue
                         r.states += 1
                         run_case(r, blocks, USE_LABELS, None)
                         r.outcome('lattice-defs=%d' % k)
